@@ -220,6 +220,30 @@ Print Assumptions C16_removed_refused_after_recover.
     is consistent — reference log plus a stored commit index inside it, so ReadAll / replayWAL hand
     over a state the library accepts; the opposite unit order is not crash safe; ClearWAL / ResetWAL
     leave no WAL identity in any intermediate state (HasWal false: the node starts over). *)
+(** createSnapshotData lists ALL members of the id-indexed maps (sorted by name): same multiset,
+    |array| = |MapByID|; in particular the removed set keeps two removed members that had the
+    same name one after the other. *)
+From Coq Require Import Permutation.
+Theorem C16_snapshot_members_complete : forall c,
+  Permutation (fst (snapshot_data c)) (fst c) /\ Permutation (snd (snapshot_data c)) (snd c) /\
+  length (fst (snapshot_data c)) = length (fst c) /\ length (snd (snapshot_data c)) = length (snd c) /\
+  forall id, is_exist (snd (snapshot_data c)) id = is_exist (snd c) id.
+Proof. exact snapshot_members_complete. Qed.
+Print Assumptions C16_snapshot_members_complete.
+
+(** [srun]: validated changes, marks and snapshot round trips (snapshot data of the running
+    cluster recovered into the initial configuration, an empty cluster, or the lagging follower
+    saved at the last mark).  An id once removed stays removed, is never an applied member
+    again, and every change naming it is refused — whatever names, addresses or peer ids were
+    used again in between. *)
+Theorem C16_removed_never_member_again_through_snapshots : forall init l st id,
+  disjoint_ids (fst st) -> is_exist (snd (fst st)) id = true ->
+  let c' := fst (srun init st l) in
+  is_exist (snd c') id = true /\ is_exist (fst c') id = false /\
+  forall t m, m_id m = id -> id <> 0 -> validate_change_membership (fst c') (snd c') t (Some m) = VAlreadyRemoved.
+Proof. exact removed_never_member_again_through_snapshots. Qed.
+Print Assumptions C16_removed_never_member_again_through_snapshots.
+
 Theorem C16_units_compose : forall w o, (forall u, o <> WUnit u) -> wrun w (units_of o) = wstep w o.
 Proof. exact units_compose. Qed.
 Print Assumptions C16_units_compose.
